@@ -375,10 +375,84 @@ func c16CRun(r *vt.Run, c c16CCase) {
 	})
 }
 
+// part D: an unhealthy REGISTERED cascade replica is still a cascade replica: it is not one of the
+// HA nodes whose replication state decides whether the master really failed
+type c16DCase struct {
+	Cascade string `json:"cascade_replica_state"` // alive | dead | hung | sql-error
+	Master  string `json:"master_state"`          // hung (answers nobody, replicas stay connected) | dead
+}
+
+func c16DRun(r *vt.Run, c c16DCase) {
+	r.Eval()
+	spec := Spec{HA: []string{"h1", "h2", "h3"}, Cascade: map[string]string{"c1": "h2"},
+		Conf: map[string]string{"failover": "true", "failover_delay": "0s", "failover_cooldown": "1s", "slave_catch_up_timeout": "4s", "wait_start_replication_timeout": "2s"}}
+	Bubble(r.T, spec, func(h *H) {
+		h.BuildConverged()
+		w := h.W
+		w.LogStmts = r.Replay != nil
+		a := h.Start("h2")
+		h.InjectHealth()
+		h.Tick(a)
+		c1, m := w.Servers["c1"], w.Servers["h1"]
+		switch c.Cascade {
+		case "dead":
+			c1.Crash(w)
+		case "hung":
+			c1.Hung = true
+		case "sql-error":
+			c1.SQLRunning, c1.SQLErrno, c1.SQLError = false, 1062, "Duplicate entry"
+		}
+		if c.Master == "hung" {
+			m.Hung = true
+		} else {
+			m.Crash(w)
+		}
+		filed := false
+		w.OnApply = append(w.OnApply, func(ap *sim.Applied) {
+			if ap.Effect && ap.Call.Kind == "zk" && ap.Call.Op == "create" && ap.Call.Target == vns+"/switch" {
+				filed = true
+				r.Count("part_d_failovers_filed")
+				if c.Master == "hung" {
+					r.Violate("C16/7-cascade-never-counted-as-an-ha-node", fmt.Sprintf("automatic failover filed although every HA replica still replicates from the master (which only the manager cannot reach): the %s cascade replica c1 was counted among the HA nodes; case %+v", c.Cascade, c), c16Case{D: &c})
+				}
+			}
+			if ap.Effect && ap.Call.Kind == "sql" && ap.Call.Op == "SET_WRITABLE" && ap.Call.Target == "c1" {
+				r.Violate("C16/8-cascade-never-promoted", fmt.Sprintf("cascade replica c1 made writable; case %+v", c), c16Case{D: &c})
+			}
+		})
+		for i := 0; i < 3; i++ {
+			h.InjectHealth()
+			w.ZK.Del(vns + "/health/h1") // the master's own mysync lost the coordination service too
+			np := len(w.Panics)
+			h.Tick(a)
+			if len(w.Panics) > np || len(w.Unknown) > 0 {
+				r.Violate("C16/0-engine", fmt.Sprintf("panics=%v at %s unknown=%v; case %+v", w.Panics, h.PanicWhere(), w.Unknown, c), c16Case{D: &c})
+				return
+			}
+			for _, x := range h.ActiveNodes() {
+				if strings.HasPrefix(x, "c") {
+					r.Violate("C16/6-cascade-never-in-active-list", fmt.Sprintf("cascade replica %s in the published list %v; case %+v", x, h.ActiveNodes(), c), c16Case{D: &c})
+				}
+			}
+			w.Advance(5 * time.Second)
+		}
+		r.Outcome(fmt.Sprintf("partD filed=%v master=%s", filed, c.Master))
+		r.Nontrivial(fmt.Sprintf("%+v", c))
+		if r.Replay != nil {
+			for _, l := range w.StmtLog {
+				if !strings.Contains(l, "(no effect)") {
+					r.Logf("%s", l)
+				}
+			}
+		}
+	})
+}
+
 type c16Case struct {
 	A *c16ACase `json:"resolver,omitempty"`
 	B *c16BCase `json:"move,omitempty"`
 	C *c16CCase `json:"quorum,omitempty"`
+	D *c16DCase `json:"unhealthy_cascade,omitempty"`
 }
 
 func checkC16(r *vt.Run) {
@@ -394,10 +468,24 @@ func checkC16(r *vt.Run) {
 		if rc.C != nil {
 			c16CRun(r, *rc.C)
 		}
+		if rc.D != nil {
+			c16DRun(r, *rc.D)
+		}
 		return
 	}
 	defer func() {
 		n := 0
+		for _, cs := range []string{"alive", "dead", "hung", "sql-error"} {
+			for _, ms := range []string{"hung", "dead"} {
+				n++
+				if !r.Mine(n) {
+					continue
+				}
+				c := c16DCase{cs, ms}
+				r.Crumb(c16Case{D: &c})
+				c16DRun(r, c)
+			}
+		}
 		for _, nn := range []int{3, 4} {
 			for _, wc := range []int{1, 2} {
 				total := 1
